@@ -46,6 +46,7 @@ struct GenFeatures {
     bool fold = true, repeat = true, many_headers = true, chunked = true, chunk_ext = true, trailers = true, close_delim = true,
          pipeline = true, absolute_uri = true, cookies = true, auth = true, query = true, urlenc_body = true, multipart_body = false,
          hostile_body = true, head = true, interim100 = true, http10 = true, put = true, content_coding = false, bare_lf = false,
+         wild_host = false,   // bracketed host literals with lengths on buffer-size edges (never in scenarios with ground truth)
          wild_path = false;   // request paths built from the decoder's corner cases (escapes, %u, overlong UTF-8, dot segments, backslashes)
     int max_exchanges = 6;
     int max_body = 300;
